@@ -425,6 +425,10 @@ class DMRGEngine(IterativeSweeps):
 
         """
         super().post_run_cleanup()
+        if self.mixer is not None:
+            # run ended with the mixer still enabled (e.g. `max_sweeps` reached before `disable_after`):
+            # the final canonicalization below must neither be skipped nor be perturbed by it
+            self.mixer_deactivate()
         self._canonicalize(True)
         logger.info(f'{self.__class__.__name__} finished after {self.sweeps} sweeps, max chi={max(self.psi.chi)}')
         if (len(self.ortho_to_envs) > 0) and (self.sweep_stats['E'][-1] > -1e-8):
